@@ -19,6 +19,8 @@
     R r2 r               r2 := CBitcoinSecret(str(r)) under the current chain          -> pub | err:b58err
     D a r                a := P2PKHBitcoinAddress.from_pubkey(r.pub), current chain    -> version,payload
     U a                  str(a) decoded                                                -> version,payload
+    E a r kind           a := P2SH / P2WPKH address carrying Hash160(r.pub); its text is taken from the
+                         library (next extra argument): the model only ever compares texts           -> ok
     M s r text           s := SignMessage(r, text)                                     -> ok | bad:…
     X text s             CPubKey.recover_compact(digest(text), s)                      -> pub | False
     Y a text s           VerifyMessage(a, text, s) under the current chain             -> 1 | 0 | err:…
@@ -47,7 +49,7 @@ structure St where
   pubs : List (String × Bytes) := []
   keys : List (String × (Bytes × Bool × Nat)) := []       -- secret, compressed, version byte at creation
   sigs : List (String × Bytes) := []
-  addrs : List (String × (Nat × Bytes)) := []
+  addrs : List (String × (Nat × Bytes × List Char)) := []     -- version, payload, text
   aux : List Bytes := []
   out : List String := []
 
@@ -135,11 +137,17 @@ def step (st : St) (toks : List String) : Option St :=
       | .error e => pure (st.emit ("err:" ++ e.family))
   | ["D", a, r] => do
       let pk ← st.pubOf r
-      let ad := (st.chain.pubkeyAddr, Model.Keys.p2pkhPayload pk)
-      pure ({ st with addrs := (a, ad) :: st.addrs }.emit s!"{ad.1},{toHex ad.2}")
+      let ad := (st.chain.pubkeyAddr, Model.Keys.p2pkhPayload pk, Model.Keys.p2pkhText st.chain.pubkeyAddr pk)
+      pure ({ st with addrs := (a, ad) :: st.addrs }.emit s!"{ad.1},{toHex ad.2.1}")
   | ["U", a] => do
       let ad ← st.addrs.lookup a
-      pure (st.emit s!"{ad.1},{toHex ad.2}")
+      pure (st.emit s!"{ad.1},{toHex ad.2.1}")
+  | ["E", a, _r, _kind] =>
+      match st.aux with
+      | t :: rest =>
+          let txt := t.map fun b => Char.ofNat b.toNat
+          pure ({ st with aux := rest, addrs := (a, (256, [], txt)) :: st.addrs }.emit "ok")
+      | [] => pure (st.emit "noaux")
   | ["M", s, r, text] => do
       let k ← st.keys.lookup r
       let text ← parseText? text
@@ -158,7 +166,7 @@ def step (st : St) (toks : List String) : Option St :=
       let ad ← st.addrs.lookup a
       let text ← parseText? text
       let sig ← st.sigOf s
-      let r := Model.Keys.verifyMessage st.chain.pubkeyAddr ad.1 ad.2 Spec.Keys.messageMagic text.toUTF8.toList sig
+      let r := Model.Keys.verifyMessage st.chain.pubkeyAddr ad.2.2 Spec.Keys.messageMagic text.toUTF8.toList sig
       pure (st.emit (Res.render (r.map bit)))
   | _ => none
 
